@@ -5,31 +5,49 @@
 
    and [sI] gives reach_count s <= s_refs s ([G_sound]).  The bare VM runs one script context (s_outer = []). *)
 From NG Require Import VM.Model VM.LimitsData VM.Reach VM.Total VM.RefsFlatStep VM.RefsInv VM.RefsMoves VM.RefsData VM.RefsOps
-  VM.RefsStale VM.RefsComp VM.RefsShape.
+  VM.RefsStale VM.RefsComp VM.RefsShape VM.RefsExact VM.RefsExactOps.
 Open Scope Z_scope.
 
 Definition fr_roots (fs : list frame) : list item := flat_map frame_roots fs.
 
-Record sI (s : state) : Prop := mksI {
+(* [sIk Lk s]: the invariant with the leaked counts Lk made explicit (Lk = [] : the counter is exact up to cycles) *)
+Record sIk (Lk : list item) (s : state) : Prop := mksIk {
   si_outer : s_outer s = [];
   si_prog : nonneg_bytes (sc_prog (s_sc s));
   si_exc : match s_exc s with Some e => valid (s_heap s) e | None => True end;
-  si_d : exists Lk, dI0 (fr_roots (s_frames s) ++ Lk) (view s)
+  si_d : dI0 (fr_roots (s_frames s) ++ Lk) (view s)
 }.
+Definition sI (s : state) : Prop := exists Lk, sIk Lk s.
 
 Ltac meq_app := split; [intros ?l; repeat rewrite ?occ_app, ?occ_cons, ?occ_nil; lia
                        |repeat rewrite ?zlen_app, ?zlen_cons', ?zlen_nil; lia].
 Ltac in_app := let a := fresh "a" in intros a; repeat (rewrite ?in_app_iff; simpl); tauto.
 
 (* ---------- what the invariant is for ---------- *)
-Theorem sI_sound s : sI s -> reach_count s <= s_refs s.
+Theorem sIk_sound Lk s : sIk Lk s -> reach_count s <= s_refs s.
 Proof.
-  intros [O _ _ (Lk & U & [Hgi _ _])]. destruct Hgi as [Hg _ _ _].
+  intros [O _ _ (U & [Hgi _ _])]. destruct Hgi as [Hg _ _ _].
   unfold reach_count. eapply G_sound; [exact Hg| |].
   - unfold roots. rewrite O. cbn [outer_roots]. unfold droots_l, slots_items, fr_roots, frame_roots, view.
     cbn [d_es d_local d_args d_static]. in_app.
   - unfold roots. rewrite O. cbn [outer_roots]. unfold droots_l, slots_items, fr_roots, frame_roots, view.
     cbn [d_es d_local d_args d_static]. pose proof (zlen_nonneg Lk). repeat rewrite ?zlen_app, ?zlen_nil. lia.
+Qed.
+
+Theorem sI_sound s : sI s -> reach_count s <= s_refs s.
+Proof. intros [Lk H]. eapply sIk_sound; eauto. Qed.
+
+(* without leaked counts and on an acyclic heap the counter is exact *)
+Theorem sIk_exact s : sIk [] s -> acyc (s_heap s) -> reach_count s = s_refs s.
+Proof.
+  intros [O _ _ (U & [Hgi _ _])] Ac. destruct Hgi as [Hg _ _ _].
+  unfold reach_count. eapply G_exact; [exact Hg|exact Ac| | |].
+  - unfold roots. rewrite O. cbn [outer_roots]. unfold droots_l, slots_items, fr_roots, frame_roots, view.
+    cbn [d_es d_local d_args d_static]. in_app.
+  - unfold roots. rewrite O. cbn [outer_roots]. unfold droots_l, slots_items, fr_roots, frame_roots, view.
+    cbn [d_es d_local d_args d_static]. in_app.
+  - unfold roots. rewrite O. cbn [outer_roots]. unfold droots_l, slots_items, fr_roots, frame_roots, view.
+    cbn [d_es d_local d_args d_static]. repeat rewrite ?zlen_app, ?zlen_nil. lia.
 Qed.
 
 (* ---------- small tools ---------- *)
@@ -39,19 +57,19 @@ Proof. destruct d; reflexivity. Qed.
 Lemma dI0_meq E E' d : dI0 E d -> meq E E' -> (forall a, In a E' -> In a E) -> dI0 E' d.
 Proof. intros [U H] M S. exists U. eapply dI_E_meq; eauto. Qed.
 
-Lemma sI_unview s d Lk : sI s -> shp (view s) d -> dI0 (fr_roots (s_frames s) ++ Lk) d -> sI (unview s d).
+Lemma sI_unview s d Lk0 Lk : sIk Lk0 s -> shp (view s) d -> dI0 (fr_roots (s_frames s) ++ Lk) d -> sIk Lk (unview s d).
 Proof.
   intros [O P X _] S H. constructor.
   - exact O.
   - exact P.
   - change (s_exc (unview s d)) with (s_exc s). change (s_heap (unview s d)) with (d_heap d).
     destruct (s_exc s); [|exact I]. eapply valid_shape; [exact S|exact X].
-  - exists Lk. rewrite view_unview. exact H.
+  - rewrite view_unview. exact H.
 Qed.
 
-Lemma sI_same_data s s' :
-  sI s -> s_outer s' = s_outer s -> sc_prog (s_sc s') = sc_prog (s_sc s) -> s_exc s' = s_exc s -> s_heap s' = s_heap s ->
-  s_frames s' = s_frames s -> view s' = view s -> sI s'.
+Lemma sI_same_data Lk s s' :
+  sIk Lk s -> s_outer s' = s_outer s -> sc_prog (s_sc s') = sc_prog (s_sc s) -> s_exc s' = s_exc s -> s_heap s' = s_heap s ->
+  s_frames s' = s_frames s -> view s' = view s -> sIk Lk s'.
 Proof.
   intros [O P X D] E1 E2 E3 E4 E5 E6. constructor.
   - rewrite E1; exact O.
@@ -60,21 +78,21 @@ Proof.
   - rewrite E5, E6; exact D.
 Qed.
 
-Lemma jump_sI s pos s' : sI s -> jump s pos = Some s' -> sI s'.
+Lemma jump_sI Lk s pos s' : sIk Lk s -> jump s pos = Some s' -> sIk Lk s'.
 Proof. unfold jump. case_if; [|discriminate]. intros H E; inv E. eapply sI_same_data; [exact H|reflexivity..]. Qed.
-Lemma set_try_sI s t : sI s -> sI (set_try s t).
+Lemma set_try_sI Lk s t : sIk Lk s -> sIk Lk (set_try s t).
 Proof. intros H. eapply sI_same_data; [exact H|reflexivity..]. Qed.
-Lemma set_gas_ip_sI s g n : sI s -> sI (set_ip (set_gas s g) n).
+Lemma set_gas_ip_sI Lk s g n : sIk Lk s -> sIk Lk (set_ip (set_gas s g) n).
 Proof. intros H. eapply sI_same_data; [exact H|reflexivity..]. Qed.
 
 (* ---------- CALL ---------- *)
-Lemma call_sI s pos s' : sI s -> call s pos = Some s' -> sI s'.
+Lemma call_sI Lk s pos s' : sIk Lk s -> call s pos = Some s' -> sIk Lk s'.
 Proof.
-  unfold call. repeat case_if; try discriminate. intros [O P X (Lk & U & H)] Q; inv Q. constructor; cbn [s_outer s_sc s_exc s_heap s_frames].
+  unfold call. repeat case_if; try discriminate. intros [O P X (U & H)] Q; inv Q. constructor; cbn [s_outer s_sc s_exc s_heap s_frames].
   - exact O.
   - exact P.
   - exact X.
-  - exists Lk. exists U. eapply dI_rearr; try exact H; try reflexivity; try apply meq_refl; try tauto.
+  - exists U. eapply dI_rearr; try exact H; try reflexivity; try apply meq_refl; try tauto.
     + unfold droots_l, slots_items, fr_roots, frame_roots, view. cbn [flat_map d_es d_local d_args d_static f_local f_args s_fr s_sc slot_items].
       meq_app.
     + unfold droots_l, slots_items, fr_roots, frame_roots, view. cbn [flat_map d_es d_local d_args d_static f_local f_args s_fr s_sc slot_items].
@@ -99,9 +117,9 @@ Proof.
 Qed.
 
 (* the data state with the slots of the executing context emptied, their content held in E *)
-Lemma unload_sI b s : sI s -> match unload b s with UNext s' => sI s' | ULast s' => sI s' | UFault => True end.
+Lemma unload_sI Lk b s : sIk Lk s -> match unload b s with UNext s' => sIk Lk s' | ULast s' => sIk Lk s' | UFault => True end.
 Proof.
-  intros [O P X (Lk & U & H)]. unfold unload. rewrite O.
+  intros [O P X (U & H)]. unfold unload. rewrite O.
   set (d0 := mkD (sc_es (s_sc s)) None None (sc_static (s_sc s)) (s_heap s) (s_refs s)).
   destruct (s_frames s) as [|f' fs] eqn:Ef.
   - (* last context *)
@@ -127,7 +145,7 @@ Proof.
         eapply same_shape_trans; [apply (clear_slot_shape (f_args (s_fr s)) (fst hr1) (snd hr1))|]. rewrite Q1. fold hr2.
         pose proof (clear_slot_shape (sc_static (s_sc s)) (fst hr2) (snd hr2)) as S3. rewrite Q2 in S3. exact S3. }
       eapply valid_shape; [exact S|exact X].
-    + exists Lk. exists U4. exact H4.
+    + exists U4. exact H4.
   - (* back to the caller in the same script *)
     set (d1 := mkD (sc_es (s_sc s)) None None (sc_static (s_sc s)) (s_heap s) (s_refs s)).
     assert (H1 : dI (slot_items (f_local (s_fr s)) ++ slot_items (f_args (s_fr s)) ++ frame_roots f' ++ fr_roots fs ++ Lk) [] U d1).
@@ -147,7 +165,7 @@ Proof.
       { eapply same_shape_trans; [apply (clear_slot_shape (f_local (s_fr s)) (s_heap s) (s_refs s))|]. fold hr1.
         pose proof (clear_slot_shape (f_args (s_fr s)) (fst hr1) (snd hr1)) as S2. rewrite Q1 in S2. exact S2. }
       eapply valid_shape; [exact S|exact X].
-    + exists Lk. exists U3. eapply dI_rearr; try exact H3; try reflexivity; try apply meq_refl; try tauto.
+    + exists U3. eapply dI_rearr; try exact H3; try reflexivity; try apply meq_refl; try tauto.
       * unfold droots_l, slots_items, fr_roots, frame_roots, view, d1.
         cbn [flat_map d_es d_local d_args d_static slot_items app set_mem s_fr s_sc]. meq_app.
       * unfold droots_l, slots_items, fr_roots, frame_roots, view, d1.
@@ -155,26 +173,26 @@ Proof.
 Qed.
 
 (* ---------- exceptions ---------- *)
-Lemma unwind_sI fuel : forall s s', sI s -> unwind fuel s = Some s' -> sI s'.
+Lemma unwind_sI Lk fuel : forall s s', sIk Lk s -> unwind fuel s = Some s' -> sIk Lk s'.
 Proof.
   induction fuel as [|f IH]; intros s s' K; simpl; [discriminate|].
   destruct (trim_try (f_try (s_fr s))) as [|t ts].
-  - pose proof (unload_sI false (set_try s []) (set_try_sI s [] K)) as Un.
+  - pose proof (unload_sI Lk false (set_try s []) (set_try_sI Lk s [] K)) as Un.
     destruct (unload false (set_try s [])); try discriminate. apply IH; assumption.
   - destruct (t_state t), (has_catch t), (s_exc s) eqn:Ex; intros E;
       try (eapply jump_sI; [|exact E]; apply set_try_sI; exact K).
     eapply jump_sI; [|exact E].
     set (s1 := set_try s (mkTry (t_catch t) (t_finally t) (t_end t) ECatch :: ts)) in *.
-    assert (K1 : sI s1) by (apply set_try_sI; exact K).
+    assert (K1 : sIk Lk s1) by (apply set_try_sI; exact K).
     assert (Vi : valid (s_heap s) i) by (destruct K as [_ _ Xe _]; rewrite Ex in Xe; exact Xe).
-    pose proof K1 as [O1 P1 X1 (Lk & U & H1)].
-    assert (K2 : sI (unview s1 (push i (view s1)))).
-    { eapply (sI_unview s1 _ Lk); [exact K1|apply shp_push|].
+    pose proof K1 as [O1 P1 X1 (U & H1)].
+    assert (K2 : sIk Lk (unview s1 (push i (view s1)))).
+    { eapply (sI_unview s1 _ Lk Lk); [exact K1|apply shp_push|].
       exists U. apply dI_push_v; [exact H1|exact Vi]. }
     destruct K2 as [O2 P2 _ D2]. constructor; [exact O2|exact P2|exact I|exact D2].
 Qed.
 
-Lemma throw_sI e s s' : sI s -> valid (s_heap s) e -> throw e s = Some s' -> sI s'.
+Lemma throw_sI Lk e s s' : sIk Lk s -> valid (s_heap s) e -> throw e s = Some s' -> sIk Lk s'.
 Proof.
   intros [O P X D] V. unfold throw. apply unwind_sI. constructor; [exact O|exact P|exact V|exact D].
 Qed.
@@ -195,26 +213,41 @@ Proof.
 Qed.
 
 (* ---------- one instruction ---------- *)
+Definition xres_sIk (Lk : list item) (r : xres) : Prop :=
+  match r with XNext s' => sIk Lk s' | XHalt s' => sIk Lk s' | XFault => True end.
 Definition xres_sI (r : xres) : Prop :=
   match r with XNext s' => sI s' | XHalt s' => sI s' | XFault => True end.
 
-Lemma xopt_sI o : (forall s', o = Some s' -> sI s') -> xres_sI (xopt o).
+Lemma xopt_sI Lk o : (forall s', o = Some s' -> sIk Lk s') -> xres_sIk Lk (xopt o).
 Proof. destruct o; simpl; auto. Qed.
+Lemma xres_sIk_sI Lk r : xres_sIk Lk r -> xres_sI r.
+Proof. destruct r; simpl; auto; intros H; exists Lk; exact H. Qed.
 
-Lemma exec_op_sI cip op p s : sI s -> nonneg_bytes p -> xres_sI (exec_op no_sys cip op p s).
+(* what a data instruction does to the invariant, as a premise: leaked counts Lk before, Lk2 after *)
+Definition data_case (Lk2 : list item) (cip : Z) (op : opcode) (p : list Z) (s : state) : Prop :=
+  xres_sIk Lk2 (match exec_data (mkEnv cip (prog_len s) (sc_sid (s_sc s))) op p (view s) with
+                | DOk d => XNext (unview s d) | DThrow e d => xopt (throw e (unview s d)) | DFault => XFault end).
+
+Lemma data_case_intro Lk Lk2 cip op p s :
+  sIk Lk s -> dres_I (fr_roots (s_frames s) ++ Lk2) (exec_data (mkEnv cip (prog_len s) (sc_sid (s_sc s))) op p (view s)) ->
+  data_case Lk2 cip op p s.
 Proof.
-  intros K NN. pose proof K as [O P X (Lk & V)].
-  assert (DD : xres_sI (match exec_data (mkEnv cip (prog_len s) (sc_sid (s_sc s))) op p (view s) with
-               | DOk d => XNext (unview s d) | DThrow e d => xopt (throw e (unview s d)) | DFault => XFault end)).
-  { destruct (exec_data_IL (mkEnv cip (prog_len s) (sc_sid (s_sc s))) op p (view s) _ NN V) as (Lk' & R).
-    pose proof (exec_data_shape (mkEnv cip (prog_len s) (sc_sid (s_sc s))) op p (view s)) as S.
-    destruct (exec_data _ op p (view s)) as [d|e d|]; cbn [dres_I] in R; [| |exact I].
-    - cbn [xres_sI]. apply (sI_unview s d (Lk' ++ Lk)); [exact K|exact S|].
-      eapply dI0_meq; [exact R|meq_app|in_app].
-    - destruct R as [R Ve]. apply xopt_sI. intros s' E. eapply throw_sI; [| |exact E].
-      + apply (sI_unview s d (Lk' ++ Lk)); [exact K|exact S|]. eapply dI0_meq; [exact R|meq_app|in_app].
-      + exact Ve. }
-  assert (JC : xres_sI (match jump_offset cip (prog_len s) p with
+  intros K R. unfold data_case.
+  pose proof (exec_data_shape (mkEnv cip (prog_len s) (sc_sid (s_sc s))) op p (view s)) as S.
+  destruct (exec_data _ op p (view s)) as [d|e d|]; cbn [dres_I] in R; [| |exact I].
+  - cbn [xres_sIk]. apply (sI_unview s d Lk Lk2); [exact K|exact S|exact R].
+  - destruct R as [R Ve]. apply xopt_sI. intros s' E. eapply throw_sI; [| |exact E].
+    + apply (sI_unview s d Lk Lk2); [exact K|exact S|exact R].
+    + exact Ve.
+Qed.
+
+(* control instructions keep the leaked counts; a data instruction takes them from Lk to Lk2 *)
+Lemma exec_op_core Lk Lk2 cip op p s :
+  sIk Lk s -> data_case Lk2 cip op p s ->
+  xres_sIk Lk (exec_op no_sys cip op p s) \/ xres_sIk Lk2 (exec_op no_sys cip op p s).
+Proof.
+  intros K DD. pose proof K as [O P X V]. unfold data_case in DD.
+  assert (JC : xres_sIk Lk (match jump_offset cip (prog_len s) p with
                       | None => XFault
                       | Some off => match jump_cond op (view s) with
                                     | None => XFault
@@ -222,18 +255,18 @@ Proof.
                                     end end)).
   { destruct (jump_offset cip (prog_len s) p); [|exact I].
     destruct (jump_cond op (view s)) as [[c d]|] eqn:E; [|exact I]. cbv zeta.
-    assert (K' : sI (unview s d)).
-    { apply (sI_unview s d Lk); [exact K|eapply jump_cond_shape; eauto|eapply jump_cond_I; eauto]. }
+    assert (K' : sIk Lk (unview s d)).
+    { apply (sI_unview s d Lk Lk); [exact K|eapply jump_cond_shape; eauto|eapply jump_cond_I; eauto]. }
     destruct c; [apply xopt_sI; intros s' J; eapply jump_sI; [|exact J]|]; exact K'. }
-  destruct op; try exact DD; try exact JC; unfold exec_op.
+  destruct op; try (right; exact DD); try (left; exact JC); left; unfold exec_op.
   - (* CALL *) destruct (jump_offset cip (prog_len s) p); [|exact I]. apply xopt_sI. intros s' E. eapply call_sI; eauto.
   - (* CALLL *) destruct (jump_offset cip (prog_len s) p); [|exact I]. apply xopt_sI. intros s' E. eapply call_sI; eauto.
   - (* CALLA *) destruct (pop (view s)) as [[[] d]|] eqn:E; try exact I.
     case_if; [|exact I]. apply xopt_sI. intros s' Cl. eapply call_sI; [|exact Cl].
-    apply (sI_unview s d Lk); [exact K|eapply shp_pop; eauto|].
+    apply (sI_unview s d Lk Lk); [exact K|eapply shp_pop; eauto|].
     destruct V as [U H]. eexists. eapply dI_pop; eauto.
-  - (* TRY *) unfold xres_sI. destruct (try_params TRY p) as [cp fp]. peel. apply set_try_sI; assumption.
-  - (* TRYL *) unfold xres_sI. destruct (try_params TRYL p) as [cp fp]. peel. apply set_try_sI; assumption.
+  - (* TRY *) unfold xres_sIk. destruct (try_params TRY p) as [cp fp]. peel. apply set_try_sI; assumption.
+  - (* TRYL *) unfold xres_sIk. destruct (try_params TRYL p) as [cp fp]. peel. apply set_try_sI; assumption.
   - (* ENDTRY *) destruct (f_try (s_fr s)) as [|t ts]; [exact I|].
     destruct (t_state t); try exact I; (destruct (jump_offset cip (prog_len s) p); [|exact I]); case_if;
       apply xopt_sI; intros s' J; (eapply jump_sI; [|exact J]); apply set_try_sI; assumption.
@@ -241,10 +274,33 @@ Proof.
     destruct (t_state t); try exact I; (destruct (jump_offset cip (prog_len s) p); [|exact I]); case_if;
       apply xopt_sI; intros s' J; (eapply jump_sI; [|exact J]); apply set_try_sI; assumption.
   - (* ENDFINALLY *) destruct (s_exc s) eqn:Ex.
-    + apply xopt_sI. intros s' E. refine (throw_sI _ _ _ K _ E). exact X.
+    + apply xopt_sI. intros s' E. refine (throw_sI Lk _ _ _ K _ E). exact X.
     + destruct (f_try (s_fr s)) as [|t ts]; [exact I|].
       apply xopt_sI; intros s' J. eapply jump_sI; [|exact J]. apply set_try_sI; assumption.
-  - (* RET *) unfold do_ret. pose proof (unload_sI true s K). destruct (unload true s); simpl; auto.
+  - (* RET *) unfold do_ret. pose proof (unload_sI Lk true s K). destruct (unload true s); simpl; auto.
+Qed.
+
+(* every instruction, with possibly more leaked counts *)
+Lemma exec_op_sI cip op p s : sI s -> nonneg_bytes p -> xres_sI (exec_op no_sys cip op p s).
+Proof.
+  intros [Lk K] NN.
+  destruct (exec_data_IL (mkEnv cip (prog_len s) (sc_sid (s_sc s))) op p (view s) _ NN (si_d _ _ K)) as (Lk' & R).
+  assert (DD : data_case (Lk' ++ Lk) cip op p s).
+  { apply (data_case_intro Lk); [exact K|].
+    destruct (exec_data _ op p (view s)) as [d|e d|]; cbn [dres_I] in *; [| |exact I].
+    - eapply dI0_meq; [exact R|meq_app|in_app].
+    - destruct R as [R Ve]. split; [|exact Ve]. eapply dI0_meq; [exact R|meq_app|in_app]. }
+  destruct (exec_op_core Lk (Lk' ++ Lk) cip op p s K DD) as [H|H]; eapply xres_sIk_sI; exact H.
+Qed.
+
+(* every instruction that starts on an acyclic heap: no new leaked counts *)
+Lemma exec_op_sIk_acyc Lk cip op p s :
+  sIk Lk s -> acyc (s_heap s) -> nonneg_bytes p -> xres_sIk Lk (exec_op no_sys cip op p s).
+Proof.
+  intros K Ac NN.
+  assert (DD : data_case Lk cip op p s).
+  { apply (data_case_intro Lk); [exact K|]. apply exec_data_E; [exact NN|exact Ac|exact (si_d _ _ K)]. }
+  destruct (exec_op_core Lk Lk cip op p s K DD) as [H|H]; exact H.
 Qed.
 
 Theorem step_sI s :
@@ -254,18 +310,35 @@ Proof.
   assert (Pp : forall g r, xres_sI r ->
               match post g r with Running s' => sI s' | Halted s' => sI s' | Faulted _ => True end).
   { intros g r R. destruct r; simpl; try exact I; case_if; try exact I; assumption. }
+  destruct K as [Lk K].
   destruct (decode (sc_prog (s_sc s)) (f_ip (s_fr s))) as [| |op p next] eqn:D; [|exact I|].
-  - apply Pp. unfold do_ret. pose proof (unload_sI true s K). destruct (unload true s); simpl; auto.
-  - case_if; [exact I|]. apply Pp. apply exec_op_sI; [apply set_gas_ip_sI; assumption|].
-    exact (decode_param_nonneg _ _ _ _ _ (si_prog s K) D).
+  - apply Pp. unfold do_ret. pose proof (unload_sI Lk true s K). destruct (unload true s); simpl; auto; exists Lk; assumption.
+  - case_if; [exact I|]. apply Pp. apply exec_op_sI; [exists Lk; apply set_gas_ip_sI; assumption|].
+    exact (decode_param_nonneg _ _ _ _ _ (si_prog _ s K) D).
 Qed.
 
-Lemma init_sI prog sid base limit : nonneg_bytes prog -> sI (init_state prog sid base limit).
+Theorem step_sIk_acyc Lk s :
+  sIk Lk s -> acyc (s_heap s) ->
+  match step s with Running s' => sIk Lk s' | Halted s' => sIk Lk s' | Faulted _ => True end.
 Proof.
-  intros H. constructor; cbn; [reflexivity|exact H|exact I|]. exists []. exists [].
+  intros K Ac. unfold step, step_with.
+  assert (Pp : forall g r, xres_sIk Lk r ->
+              match post g r with Running s' => sIk Lk s' | Halted s' => sIk Lk s' | Faulted _ => True end).
+  { intros g r R. destruct r; simpl; try exact I; case_if; try exact I; assumption. }
+  destruct (decode (sc_prog (s_sc s)) (f_ip (s_fr s))) as [| |op p next] eqn:D; [|exact I|].
+  - apply Pp. unfold do_ret. pose proof (unload_sI Lk true s K). destruct (unload true s); simpl; auto.
+  - case_if; [exact I|]. apply Pp. apply exec_op_sIk_acyc; [apply set_gas_ip_sI; assumption|exact Ac|].
+    exact (decode_param_nonneg _ _ _ _ _ (si_prog _ s K) D).
+Qed.
+
+Lemma init_sIk prog sid base limit : nonneg_bytes prog -> sIk [] (init_state prog sid base limit).
+Proof.
+  intros H. constructor; cbn; [reflexivity|exact H|exact I|]. exists [].
   constructor; [|constructor|constructor]. constructor; [|constructor|constructor|constructor].
   constructor; [constructor|intros l; destruct l; reflexivity|reflexivity].
 Qed.
+Lemma init_sI prog sid base limit : nonneg_bytes prog -> sI (init_state prog sid base limit).
+Proof. intros H. exists []. apply init_sIk. exact H. Qed.
 
 Theorem run_sI : forall n s, sI s ->
   match run n s with Running s' => sI s' | Halted s' => sI s' | Faulted _ => True end.
@@ -283,4 +356,52 @@ Theorem refs_never_undercount n prog sid base limit s :
 Proof.
   intros NN R. pose proof (run_sI n _ (init_sI prog sid base limit NN)) as K.
   destruct R as [R|R]; rewrite R in K; apply sI_sound; exact K.
+Qed.
+
+(* ---------- exactness while no cycle exists ----------
+   [run_acyclic n s]: the heap is acyclic in every state the first n instructions started from s pass through
+   (incl. s and the state reached) - "no instruction ever closed a cycle" *)
+Fixpoint run_acyclic (n : nat) (s : state) : Prop :=
+  acyc (s_heap s) /\
+  match n with
+  | O => True
+  | S n' => match step s with Running s' => run_acyclic n' s' | Halted s' => acyc (s_heap s') | Faulted _ => True end
+  end.
+
+Lemma run_acyclic_here n s : run_acyclic n s -> acyc (s_heap s).
+Proof. destruct n; simpl; tauto. Qed.
+
+Theorem run_exact : forall n s, sIk [] s -> run_acyclic n s ->
+  match run n s with
+  | Running s' => reach_count s' = s_refs s'
+  | Halted s' => reach_count s' = s_refs s'
+  | Faulted _ => True
+  end.
+Proof.
+  induction n as [|n IH]; intros s K [Ac R]; simpl; [apply sIk_exact; assumption|].
+  pose proof (step_sIk_acyc [] s K Ac) as S.
+  destruct (step s) as [s1|s1|g]; [apply IH; assumption|apply sIk_exact; assumption|exact I].
+Qed.
+
+(* The item accounting is exact as long as no cyclic structure was built. *)
+Theorem refs_exact_acyclic n prog sid base limit :
+  nonneg_bytes prog -> run_acyclic n (init_state prog sid base limit) ->
+  match run n (init_state prog sid base limit) with
+  | Running s => reach_count s = s_refs s
+  | Halted s => reach_count s = s_refs s
+  | Faulted _ => True
+  end.
+Proof. intros NN R. apply run_exact; [apply init_sIk; exact NN|exact R]. Qed.
+
+(* the same hypothesis, decidable (sound: [acycb_sound]) *)
+Fixpoint run_acyclicb (n : nat) (s : state) : bool :=
+  acycb (s_heap s) &&
+  match n with
+  | O => true
+  | S n' => match step s with Running s' => run_acyclicb n' s' | Halted s' => acycb (s_heap s') | Faulted _ => true end
+  end.
+Lemma run_acyclicb_sound : forall n s, run_acyclicb n s = true -> run_acyclic n s.
+Proof.
+  induction n as [|n IH]; intros s; simpl; rewrite andb_true_iff; intros [A R]; (split; [apply acycb_sound; exact A|]); [exact I|].
+  destruct (step s); [apply IH; exact R|apply acycb_sound; exact R|exact I].
 Qed.
